@@ -91,12 +91,45 @@ def double_import_cases(acc, rng, count):
             pr.close()
 
 
+UNTAKEN_WITNESS = ".const x = 1\nsc: {\n    .if 0 {\n        .const x = 2\n    }\n    lda #x\n}\n"
+
+
+def untaken_branch_witness(acc, probe):
+    """The assembler binds `x` in `lda #x` to the outer constant (the branch that defines another `x` is not taken: A9 01); the
+    language server must say the same. A recorded known finding: the analysis of untaken branches defines their symbols in
+    the enclosing scope."""
+    acc.evaluations += 1
+    built = probe.ask({"files": {"main.asm": UNTAKEN_WITNESS}, "ops": ["parse", "codegen"], "opts": {"pc": 0xC000}})
+    segs = (built.get("codegen") or {}).get("segments") or []
+    data = "".join(s_.get("data", "") if isinstance(s_, dict) else "" for s_ in segs).lower()
+    pr = L.Project({"main.asm": UNTAKEN_WITNESS}, open_files=("main.asm",))
+    try:
+        d = pr.pos_request("textDocument/definition", "main.asm", 5, 9)
+    finally:
+        pr.close()
+    res = d.get("result")
+    if not isinstance(res, list) or not res:
+        acc.inconc("untaken-branch witness: no definition answer (%r)" % (d,))
+        return
+    line = res[0]["targetRange"]["start"]["line"]
+    if line == 3:
+        acc.violation("binding-differs|definition-in-untaken-branch-shadows-outer",
+                      "`lda #x` assembles with the outer x (= 1), go-to-definition leads to the `.const x = 2` of the untaken branch",
+                      {"main.asm": UNTAKEN_WITNESS, "definition": res, "assembled": data})
+    elif line == 0:
+        acc.nontriv("untaken-branch-witness")
+    else:
+        acc.violation("definition-wrong|untaken-branch-witness", "definition of x reported at line %d" % line, {"main.asm": UNTAKEN_WITNESS, "definition": res})
+
+
 def shard(idx, n, seed, tier, params):
     acc = Acc()
     probe = Probe()
     rng = rng_for(seed, "c16", idx)
     t_end = time.time() + params["budget"]
     double_import_cases(acc, rng, 2 if tier == "quick" else 40)
+    if idx == 0:
+        untaken_branch_witness(acc, probe)
     for i in range(params["programs"] // n):
         if time.time() > t_end:
             acc.count("budget_cut")
